@@ -79,7 +79,7 @@ type Else struct {
 type Cond struct {
 	Path string `json:"path"`
 	Op   string `json:"op,omitempty"`
-	Lit  vals.V `json:"lit"`
+	Lit  vals.V `json:"lit,omitzero"`
 }
 
 // Probe prints variables: <span data-m=ID>[t1|t2|…]<b v-if…/><u :data-x…/></span>.
